@@ -1050,7 +1050,17 @@ func (c *Ctx) EnteredOnlyWhenAll(blk *ssa.BasicBlock, label string, skip func(*s
 func (c *Ctx) UnderArm(site ssa.Instruction, label string, when ...FM) bool {
 	c.inst(label + " <- " + c.siteStr(site))
 	c.nontrivial(label + c.siteStr(site))
-	for d := site.Block(); d != nil; d = d.Idom() {
+	if underArm(site.Block(), when...) {
+		return true
+	}
+	c.violate(site, site.Parent(), label, "guard \""+label+"\" does not hold on every way into an arm enclosing "+instrStr(site), nil)
+	return false
+}
+
+// underArm: blk or one of its dominators is entered only along edges on which
+// one of the facts holds.
+func underArm(blk *ssa.BasicBlock, when ...FM) bool {
+	for d := blk; d != nil; d = d.Idom() {
 		if len(d.Preds) == 0 {
 			break
 		}
@@ -1072,7 +1082,6 @@ func (c *Ctx) UnderArm(site ssa.Instruction, label string, when ...FM) bool {
 			return true
 		}
 	}
-	c.violate(site, site.Parent(), label, "guard \""+label+"\" does not hold on every way into an arm enclosing "+instrStr(site), nil)
 	return false
 }
 
